@@ -91,7 +91,7 @@ def generate(prop, rng, tier):
     slow_ok = rng.random() < (0.25 if not big else 0.35)
     kinds = ("ensemble", "ttf", "stack", "mux")
     spec = C.gen_forecaster(rng, depth=rng.choice([0, 0, 1, 1, 2]), allow_slow=slow_ok, kinds=kinds)
-    if prop == "C03" and rng.random() < 0.08:
+    if rng.random() < (0.08 if prop == "C03" else 0.05):
         base = C.gen_leaf(rng, allow_slow=False, allow_reduce=False)
         while base["kind"] != "naive":
             base = C.gen_leaf(rng, allow_slow=False, allow_reduce=False)
@@ -100,6 +100,17 @@ def generate(prop, rng, tier):
                        "fh": [1, 2]},
                 "grid": {"strategy": ["last", "mean", "drift"], "window_length": [3, 4]},
                 "n_jobs": rng.choice([None, 2, 3]), "refit": True}
+    if prop == "C10" and rng.random() < 0.06:
+        # pipelines whose transformers keep what they learnt in fit (seasonal components
+        # aligned to the training start) across updates
+        spec = {"kind": "ttf",
+                "transformers": [{"kind": rng.choice(["deseason", "deseason", "cdeseason"]),
+                                  "sp": rng.choice([2, 3, 4]),
+                                  "model": rng.choice(["additive", "multiplicative"])}],
+                "forecaster": rng.choice([
+                    {"kind": "naive", "strategy": rng.choice(["last", "mean", "drift"]), "sp": 1,
+                     "window_length": None},
+                    {"kind": "trend", "degree": 1, "with_intercept": True}])}
     fh_fit_needed = C.needs_fh_at_fit(spec)
     fit_steps = _gen_steps(rng)
     max_h = 8
@@ -724,6 +735,18 @@ class Engine:
                 return
             self.res.probe("labels_after_stale_checked")
             exp = _expected_index(steps, actor.label(actor.cut))
+            sp_ = self.spec
+            if sp_["kind"] == "naive" and sp_.get("strategy") == "last" and sp_.get("sp", 1) == 1 \
+                    and isinstance(p, pd.Series) and len(p) == len(steps):
+                # the simplest model: every forecast is the observation at the (new) cutoff
+                want = actor.seen.get(_key(actor.label(actor.cut)))
+                if want is not None and not np.allclose(np.asarray(p.values, float), want):
+                    self.v("forecast_not_from_new_cutoff", "after an update (update_params=False) with "
+                           "a batch ending at %s, NaiveForecaster(last) forecasts %s, the observation "
+                           "at that cutoff is %.6g (%s)" % (actor.label(actor.cut), C.fmt(p), want, who),
+                           op="predict", after_update=True, values=True)
+                    self.dead = True
+                    return
             if isinstance(p, pd.Series) and len(p) == len(steps) and not C.same_index(list(p.index), exp):
                 self.v("forecast_not_from_new_cutoff", "after an update (update_params=False) with a "
                        "batch ending at %s, predict(%s) is labelled %s, expected %s (%s)" % (
@@ -1045,7 +1068,7 @@ class Engine:
                        "after fit+update(s) predict(%s) gives %s, a fresh forecaster fitted on all "
                        "data seen gives %s" % (steps, C.fmt(p), C.fmt(q)), op="predict")
         elif self.snap_fit is not None and len(self.since_fit) >= 2 and self.all_up \
-                and self.spec["kind"] in ("theta", "stack") and not self.after_upd:
+                and _batching_invariant(self.spec) and not self.after_upd:
             # several updates with update_params=True == one update with all of their data:
             # these updates recompute their parameters from the whole remembered series (Theta:
             # trend; stacking: members refitted, meta-learner untouched)
@@ -1183,6 +1206,30 @@ class Engine:
                        "predict(%s) gives %s but the same steps taken from predict(1..%d) are %s"
                        % (steps, C.fmt(p), max(steps), C.fmt(sub)), op="predict")
 
+        elif self.spec["kind"] == "reduce" and self.spec["strategy"] in ("direct", "multioutput") \
+                and self.refit_clean and steps != list(range(1, max(steps) + 1)) \
+                and not self.scen.get("exog"):
+            # horizon-dependent reductions learn one model (or output column) per step from the
+            # same windows: the forecast for step h is the same whether the horizon was [.., h, ..]
+            # or 1..max
+            with peers.paused():
+                try:
+                    twin = C.build(self.spec)
+                    s2 = sched.Scheduler("fifo", 0)
+                    with sched.scenario_schedule(s2):
+                        twin.fit(a.seen_series(), fh=list(range(1, max(steps) + 1)))
+                        full = twin.predict()
+                except Exception as e:  # noqa
+                    self.note("contiguous_raised", type(e).__name__)
+                    return
+            self.res.probe("gapped_vs_contiguous_checked")
+            sub = full.iloc[[s_ - 1 for s_ in steps]]
+            if not C.same_values(sub.values, p.values):
+                self.v("gapped_horizon_values",
+                       "fitted with the horizon %s the forecasts are %s; a fresh forecaster fitted on "
+                       "the same data with the horizon 1..%d gives %s for those steps"
+                       % (steps, C.fmt(p), max(steps), C.fmt(sub)), op="predict", at_fit=True)
+
     def check_c03_update_predict(self, i, outs, splits, cv_steps):
         """Labels of update_predict: forecasts for cutoff c are labelled c + step."""
         for (actor, o) in zip(self.actors(), outs):
@@ -1241,6 +1288,25 @@ class _FaultyCV:
             def get_fh(self):
                 return self._inner.get_fh()
         return FaultyCV()
+
+
+def _batching_invariant(spec):
+    """update(update_params=True) recomputes everything it recomputes from the whole remembered
+    series: Theta, stacking, and pipelines whose transformers learn nothing in update
+    (seasonal components and Box-Cox lambda stay those of fit; a Detrender would re-estimate
+    its trend and leave the earlier transformed history as it was, which legitimately depends
+    on the batching)."""
+    k = spec["kind"]
+    if k in ("theta", "stack"):
+        return True
+    if k == "ttf":
+        def t_ok(t):
+            if t["kind"] == "optional":
+                return t_ok(t["transformer"])
+            return t["kind"] in ("deseason", "cdeseason", "log", "boxcox")
+        f = spec["forecaster"]
+        return all(t_ok(t) for t in spec["transformers"]) and f["kind"] in ("naive", "trend")
+    return False
 
 
 def _time_only(spec):
